@@ -142,8 +142,8 @@ impl ArrValue {
 
 		Self::new(SliceArray {
 			inner: self,
-			from: index as u32,
-			to: end as u32,
+			from: index,
+			to: end,
 			step: step.get(),
 		})
 	}
